@@ -363,9 +363,11 @@ def r08_5_registration(ctx):
     f = ctx.model.find_func("Router.add_method_handler", "pyteal.ast.router")
     ctx.analysed(f.fq)
     first_effect = min([n.lineno for n in walk_local(f.node) if (isinstance(n, ast.Assign) and u(n.targets[0]).startswith("self.")) or (isinstance(n, ast.Call) and u(n.func) in ("self.methods.append", "self.approval_ast.add_method_to_ast"))] or [10**9])
+    sig = q.name_assigned_from(f.node, lambda v: isinstance(v, ast.Call) and u(v.func).endswith(".method_signature"), "the method signature local in add_method_handler")
+    sel = q.name_assigned_from(f.node, lambda v: "checksum(" in u(v), "the selector local in add_method_handler")
     checks = {
-        "duplicate-signature": ("method_signature in self.method_sig_to_selector", True),
-        "selector-collision": ("method_selector in self.method_selector_to_sig", True),
+        "duplicate-signature": (f"{sig} in self.method_sig_to_selector", True),
+        "selector-collision": (f"{sel} in self.method_selector_to_sig", True),
         "never-executed": ("method_config.is_never()", True),
         "handler-kind": ("isinstance(method_call, ABIReturnSubroutine)", False),
     }
@@ -374,12 +376,11 @@ def r08_5_registration(ctx):
         ctx.check(len(hits) == 1 and hits[0].lineno < first_effect, "R08.5", f"add_method_handler:{name}", f"a TealInputError guarded by `{'' if pol else 'not '}{test}` must precede every recording statement; found {len(hits)}", f.where, fact={"first_effect_line": first_effect})
     # the two tables are filled with the matching keys
     sets = {u(n.targets[0]): u(n.value) for n in walk_local(f.node) if isinstance(n, ast.Assign) and u(n.targets[0]).startswith("self.method_s")}
-    ctx.check(sets == {"self.method_sig_to_selector[method_signature]": "method_selector", "self.method_selector_to_sig[method_selector]": "method_signature"}, "R08.5", "add_method_handler:tables", f"signature->selector and selector->signature tables must be filled with each other's keys; found {sets}", f.where, fact=sets)
-    sel = q.assigns_to(f.node, "method_selector")
-    ctx.check(len(sel) == 1 and u(sel[0]).replace('"', "'") == "encoding.checksum(bytes(method_signature, 'utf-8'))[:4]", "R08.5", "add_method_handler:selector", f"the selector must be the first 4 bytes of the SHA-512/256 of the signature; computed as {u(sel[0]) if sel else None}", f.where, fact={})
-    cond = q.assigns_to(f.node, "method_approval_cond")
+    ctx.check(sets == {f"self.method_sig_to_selector[{sig}]": sel, f"self.method_selector_to_sig[{sel}]": sig}, "R08.5", "add_method_handler:tables", f"signature->selector and selector->signature tables must be filled with each other's keys; found {sets}", f.where, fact=sets)
+    seld = q.assigns_to(f.node, sel)
+    ctx.check(len(seld) == 1 and u(seld[0]).replace('"', "'") == f"encoding.checksum(bytes({sig}, 'utf-8'))[:4]", "R08.5", "add_method_handler:selector", f"the selector must be the first 4 bytes of the SHA-512/256 of the signature; computed as {u(seld[0]) if seld else None}", f.where, fact={})
     ama = q.one(q.calls_named(f.node, "add_method_to_ast", into_nested=False), "add_method_to_ast call")
-    ctx.check(len(cond) == 1 and u(cond[0]) == "method_config.approval_cond()" and [u(a) for a in ama.args] == ["method_signature", "method_approval_cond", "method_call"], "R08.5", "add_method_handler:registered-triple", "the arm registered must be (this signature, this config's condition, this handler)", f.where, fact={})
+    ctx.check(len(ama.args) == 3 and u(ama.args[0]) == sig and q.rtext(f.node, ama.args[1]) == "method_config.approval_cond()" and u(ama.args[2]) == "method_call", "R08.5", "add_method_handler:registered-triple", "the arm registered must be (this signature, this config's condition, this handler)", f.where, fact={})
     dflt = [n for n in walk_local(f.node) if isinstance(n, ast.Assign) and u(n.targets[0]) == "method_config"]
     ctx.check(len(dflt) == 1 and u(dflt[0].value) == "MethodConfig(no_op=CallConfig.CALL)" and ("method_config is None", True) in q.nguards(dflt[0]), "R08.5", "add_method_handler:default-config", "the documented default is no_op=CALL only", f.where, fact={})
     init = ctx.model.find_func("Router.__init__", "pyteal.ast.router")
